@@ -11,7 +11,7 @@
 #define EXC_out_of_range 2
 static inline int iora_isa(int exc, int ty) { return exc == ty; }
 
-size_t G_stoul_calls, G_stoul_off, G_stoul_n;
+size_t G_stoul_calls /* saturates at 2 */, G_stoul_off, G_stoul_n;
 unsigned long G_stoul_ret;
 int G_stoul_exc;
 
@@ -31,7 +31,7 @@ static inline unsigned long iora_stoul(iora_sv s, void *idx, int base)
   if (i < s.n && HX_SIGN(s.p[i])) { neg = s.p[i] == (char)45; i++; }
   if (i + 1 < s.n && s.p[i] == (char)48 && HX_X(s.p[i + 1]) && i + 2 < s.n && HX_IS(s.p[i + 2])) i += 2;
   while (i < s.n && HX_IS(s.p[i])) { if (v >> 60) ovf = 1; v = (v << 4) | HX_V(s.p[i]); any = 1; i++; }
-  G_stoul_calls++; G_stoul_off = (size_t)(s.p - (const char *)0); G_stoul_n = s.n;
+  if (G_stoul_calls < 2) G_stoul_calls++; G_stoul_off = (size_t)(s.p - (const char *)0); G_stoul_n = s.n;
   if (!any) { iora_exc = EXC_invalid_argument; G_stoul_exc = iora_exc; return 0; }
   if (ovf) { iora_exc = EXC_out_of_range; G_stoul_exc = iora_exc; return 0; }
   G_stoul_exc = 0;
@@ -58,7 +58,7 @@ unsigned long iora_stoul_env(size_t n, char c0, char c1, size_t off, int base)
   __CPROVER_ensures((n >= 2 && HX_IS(c0) && !HX_IS(c1) && !(c0 == (char)48 && HX_X(c1))) ==> ST_R == HX_V(c0))
   __CPROVER_ensures((n == 2 && HX_IS(c0) && HX_IS(c1)) ==> ST_R == ((HX_V(c0) << 4) | HX_V(c1)))
   /* ghost record */
-  __CPROVER_ensures(G_stoul_calls == __CPROVER_old(G_stoul_calls) + 1 && G_stoul_off == off && G_stoul_n == n)
+  __CPROVER_ensures(G_stoul_calls == (__CPROVER_old(G_stoul_calls) >= 2 ? 2 : __CPROVER_old(G_stoul_calls) + 1) && G_stoul_off == off && G_stoul_n == n)
   __CPROVER_ensures(G_stoul_exc == iora_exc && (iora_exc == EXC_NONE ==> G_stoul_ret == ST_R));
 static inline unsigned long iora_stoul(iora_sv s, void *idx, int base)
 {
